@@ -336,6 +336,8 @@ pub struct ScenarioCfg {
     pub background_repair: bool,
     pub explicit_purges: bool,
     pub repair_interval: Duration,
+    /// only Consistency::None writes: nothing is sent directly, everything depends on batches and repair
+    pub none_only: bool,
 }
 
 pub struct ScenarioResult {
@@ -448,7 +450,7 @@ pub async fn convergence_scenario(seed: u64, scen: u64, cfg: &ScenarioCfg, tag: 
         let node = *live.choose(&mut rng).unwrap();
         let ks = rng.gen_range(0..cfg.n_keyspaces);
         let id: Key = rng.gen_range(0..cfg.n_ids);
-        let level = *levels.choose(&mut rng).unwrap();
+        let level = if cfg.none_only { Consistency::None } else { *levels.choose(&mut rng).unwrap() };
         let val: Vec<u8> = (0..rng.gen_range(0..5)).map(|_| rng.gen()).collect();
         let op = match rng.gen_range(0..10) {
             0..=4 => ClientOp::Put { node, ks, id, val, level },
@@ -607,6 +609,28 @@ pub async fn convergence_scenario(seed: u64, scen: u64, cfg: &ScenarioCfg, tag: 
 }
 
 fn c01_cfg(rng: &mut StdRng, thorough: bool) -> ScenarioCfg {
+    if rng.gen_bool(0.35) {
+        // "sparse knowledge": a handful of operations on one or two ids, nearly all replication
+        // messages lost, no background repair - every operation is known to its issuer only, so
+        // the outcome rests entirely on the final round and on the ORDER of its exchanges
+        return ScenarioCfg {
+            n_nodes: rng.gen_range(3..=4),
+            n_dcs: 1,
+            n_keyspaces: 1,
+            n_ids: rng.gen_range(1..=2),
+            n_ops: rng.gen_range(2..=6),
+            max_gap_ms: *[0u64, 50, 900].choose(rng).unwrap(),
+            max_skew_ms: *[0i64, 40, 5_000].choose(rng).unwrap(),
+            mix: [4, 90, 0, 3, 3],
+            max_hold_ms: 2_500,
+            late_join: false,
+            restart: false,
+            background_repair: false,
+            explicit_purges: false,
+            repair_interval: Duration::from_secs(100_000),
+            none_only: rng.gen_bool(0.7),
+        };
+    }
     let n_nodes = *[2usize, 3, 3, 3, 4, 5].choose(rng).unwrap();
     ScenarioCfg {
         n_nodes,
@@ -623,12 +647,13 @@ fn c01_cfg(rng: &mut StdRng, thorough: bool) -> ScenarioCfg {
         background_repair: rng.gen_bool(0.5),
         explicit_purges: false,
         repair_interval: Duration::from_secs(7),
+        none_only: false,
     }
 }
 
 fn cfg_json(c: &ScenarioCfg) -> Value {
     json!({"nodes": c.n_nodes, "dcs": c.n_dcs, "keyspaces": c.n_keyspaces, "ids": c.n_ids, "ops": c.n_ops, "max_gap_ms": c.max_gap_ms, "max_skew_ms": c.max_skew_ms,
-        "verdict_mix_deliver_drop_dup_dropreply_hold": c.mix, "max_hold_ms": c.max_hold_ms, "late_join": c.late_join, "restart": c.restart, "background_repair": c.background_repair, "explicit_purges": c.explicit_purges})
+        "verdict_mix_deliver_drop_dup_dropreply_hold": c.mix, "max_hold_ms": c.max_hold_ms, "late_join": c.late_join, "restart": c.restart, "none_only": c.none_only, "background_repair": c.background_repair, "explicit_purges": c.explicit_purges})
 }
 
 fn absorb_scenario(out: &mut CaseOut, r: &ScenarioResult, cfg: &ScenarioCfg, prop: &str, seed: u64, scen: u64, want_reads: bool, want_agreement: bool) {
@@ -685,7 +710,7 @@ fn c01_case(seed: u64, scen: u64, thorough: bool, prop: &str, want_reads: bool, 
     out
 }
 
-const C01_RULE: &str = "one scenario = a real cluster of 2..5 nodes (1-2 DCs, MemStore behind a recording wrapper) on a virtual-time runtime: 5..40 put/del/put_many/del_many through the public handle at random nodes and consistency levels, 1-2 keyspaces, 3-6 ids, clocks skewed up to +-10 min; every ConsistencyService message (direct and batch) gets an independent verdict from a seeded policy - deliver / drop / duplicate / drop the reply / hold for up to 2.5 s (= reorder); real distributor (1 s batches), in half of the scenarios the real poller; optionally a node that joins late (after deletes) and a node stopped and restarted on its storage. Then faults stop, held messages drain, and node i pulls from node j (repair_from = real repair_members with a fresh tracker) for EVERY ordered pair in random order, failpoints choosing which half of each exchange is applied first; an exchange that did not complete is retried, else the scenario is inconclusive. Oracle: LWW over all storage writes recorded anywhere (the operations that took effect); every node's get / get_many / iter_metadata must equal it (ids, bytes, stamps). Preconditions re-checked: stamps within 3600 s, one stamp never names a put and a delete. Non-trivial = at least one message verdict was not 'deliver'; distinct = distinct hash of (operations, per-message verdict trace).";
+const C01_RULE: &str = "one scenario = a real cluster of 2..5 nodes (1-2 DCs, MemStore behind a recording wrapper) on a virtual-time runtime: 5..40 put/del/put_many/del_many through the public handle at random nodes and consistency levels, 1-2 keyspaces, 3-6 ids, clocks skewed up to +-10 min; every ConsistencyService message (direct and batch) gets an independent verdict from a seeded policy - deliver / drop / duplicate / drop the reply / hold for up to 2.5 s (= reorder); real distributor (1 s batches), in half of the scenarios the real poller; optionally a node that joins late (after deletes) and a node stopped and restarted on its storage; 35 % of the scenarios are 'sparse knowledge' ones (2-6 operations on 1-2 ids, 90 % of the messages lost, no background repair, mostly Consistency::None) in which every operation is known to its issuer only and the result rests on the order of the final exchanges. Then faults stop, held messages drain, and node i pulls from node j (repair_from = real repair_members with a fresh tracker) for EVERY ordered pair in random order, failpoints choosing which half of each exchange is applied first; an exchange that did not complete is retried, else the scenario is inconclusive. Oracle: LWW over all storage writes recorded anywhere (the operations that took effect); every node's get / get_many / iter_metadata must equal it (ids, bytes, stamps). Preconditions re-checked: stamps within 3600 s, one stamp never names a put and a delete. Non-trivial = at least one message verdict was not 'deliver'; distinct = distinct hash of (operations, per-message verdict trace).";
 
 pub fn c01(args: &Args) {
     let mut report = Report::new(args, "E2-cluster", C01_RULE);
@@ -746,6 +771,7 @@ fn c08_cfg(rng: &mut StdRng) -> ScenarioCfg {
         background_repair: true,
         explicit_purges: true,
         repair_interval: Duration::from_secs(900),
+        none_only: false,
     }
 }
 
